@@ -10,6 +10,32 @@ from . import common as cm
 
 REQ = ["Tidy.Blocks", "Tidy.Fix", "Tidy.Wire"]
 
+# the Python functions Tidy/Blocks.v and Tidy/Fix.v transcribe
+ANCHORS = [
+    "pyflyby._imports2s:SourceToSourceImportBlockTransformation.pretty_print",
+    "pyflyby._imports2s:SourceToSourceFileImportsTransformation.preprocess",
+    "pyflyby._imports2s:SourceToSourceFileImportsTransformation.pretty_print",
+    "pyflyby._imports2s:SourceToSourceFileImportsTransformation.find_import_block_by_lineno",
+    "pyflyby._imports2s:SourceToSourceFileImportsTransformation.remove_import",
+    "pyflyby._imports2s:SourceToSourceFileImportsTransformation._import_block_precedes_line",
+    "pyflyby._imports2s:SourceToSourceFileImportsTransformation.select_import_block_by_closest_prefix_match",
+    "pyflyby._imports2s:SourceToSourceFileImportsTransformation.insert_new_blocks_after_comments",
+    "pyflyby._imports2s:SourceToSourceFileImportsTransformation.insert_new_import_block",
+    "pyflyby._imports2s:SourceToSourceFileImportsTransformation.add_import",
+    "pyflyby._imports2s:reformat_import_statements",
+    "pyflyby._imports2s:fix_unused_and_missing_imports",
+    "pyflyby._imports2s:remove_broken_imports",
+    "pyflyby._imports2s:replace_star_imports",
+    "pyflyby._imports2s:transform_imports",
+    "pyflyby._importclns:ImportSet._from_imports",
+    "pyflyby._importclns:ImportSet.with_imports",
+    "pyflyby._importclns:ImportSet.without_imports",
+    "pyflyby._importclns:ImportSet.by_import_as.func",
+    "pyflyby._importclns:ImportSet.conflicting_imports.func",
+    "pyflyby._importstmt:Import.split.func",
+    "pyflyby._importstmt:Import.prefix_match",
+]
+
 # ---------------------------------------------------------------------------------------------
 # generators (statement soup after design-notes/spikes/gen.py, layout after fuzz_s2s.py)
 
@@ -82,7 +108,8 @@ def target(r):
 
 def imp(r):
     k = r.random()
-    mod = r.choice(['pkg', 'os', 'm', 'pkg.sub', 'os.path', 'a.b', 'keyword', 'keyword'] + ([LONGMOD] if r.random() < .15 else []))
+    mod = r.choice(['pkg', 'os', 'm', 'pkg.sub', 'os.path', 'a.b', 'keyword', 'keyword'] + ([LONGMOD] if r.random() < .15 else [])
+                   + (['IPython', 'PIL.Image', '_priv', '__a', 'Zmod', 'A0.b'] if r.random() < .3 else []))
     if k < 0.4:
         return 'import %s' % mod
     if k < 0.55:
@@ -151,8 +178,12 @@ def layout(r):
         lines += ["#!/usr/bin/python", "", "'one'", "# c"]
     elif k < 0.47:
         lines += ['"""doc"""', '"second string"']
-    elif k < 0.52:
+    elif k < 0.54:
         lines += ["from __future__ import %s" % r.choice(["division", "annotations", "print_function"])]
+        if r.random() < .5:                                # other imports in the same block as the __future__ import
+            lines += [imp(r) for _ in range(r.randint(1, 2))]
+    elif k < 0.56:
+        lines += [r.choice(["b'bytes first'", "# c\nb'x'", "b'x'\n'y'"])]
     if r.random() < 0.04:                                  # prologue-only file
         src = '\n'.join(lines)
         return src + ('\n' if r.random() < .7 else '')
@@ -173,7 +204,7 @@ def layout(r):
             if r.random() < .25:
                 lines += ["if %s:" % name(r), "    pass"]
         elif k < 0.55:
-            lines.append(r.choice(["", "# comment", "    # indented comment", "", "\n"]))
+            lines.append(r.choice(["", "# comment", "    # indented comment", "", "\n", "'bare string'"]))
         elif k < 0.60:
             lines.append("%s = '''multi\n# hash inside\nline'''  # tail" % name(r))
         elif k < 0.64:
@@ -199,7 +230,9 @@ DBS = [
 ]
 
 PARAMS = [None, {"align_imports": False}, {"align_imports": 32, "from_spaces": 3},
-          {"max_line_length": 40}, {"separate_from_imports": False, "from_spaces": 3}]
+          {"max_line_length": 40}, {"separate_from_imports": False, "from_spaces": 3},
+          {"separate_from_imports": False, "align_future": True}, {"separate_from_imports": False, "align_future": False, "align_imports": [32]},
+          {"align_future": True}]
 
 
 def gen_flags(r):
@@ -273,7 +306,13 @@ class Capture:
             else:
                 sts = []
                 for s in b.input.statements:
-                    kind = "B" if s.is_comment_or_blank else ("S" if s.is_comment_or_blank_or_string_literal else "C")
+                    if s.is_comment_or_blank:
+                        kind = "B"
+                    elif s.is_comment_or_blank_or_string_literal:
+                        from pyflyby._parse import _ast_str_literal_value
+                        kind = "S" if isinstance(_ast_str_literal_value(s.ast_node), str) else "Y"
+                    else:
+                        kind = "C"
                     sts.append([kind, s.block.text.joined])
                 o = b._output
                 out.append({"k": "O", "stmts": sts, "text": b.input.text.joined,
@@ -502,7 +541,7 @@ def c_block(b):
     if b["k"] == "I":
         return "(Imps (mkIB %s %s %s %s %s %s))" % (cm.cnat(b["id"]), cm.cnat(b["start"]), cm.cbool(b["col"] == 1),
                                                    cm.cnat(b["end"]), cm.cbool(b["endcol"] == 1), c_imps(b["imports"]))
-    kinds = {"B": "KBlank", "S": "KString", "C": "KCode"}
+    kinds = {"B": "KBlank", "S": "KString", "Y": "KBytes", "C": "KCode"}
     return "(Other %s %s)" % (cm.clist(["(mkStmt %s %s)" % (kinds[k], cm.cstr(t)) for k, t in b["stmts"]]),
                               cm.copt(b["out"], cm.cstr))
 
